@@ -418,8 +418,9 @@ func (R *Renderer) render(v ssa.Value) string {
 			return fmt.Sprintf("*%d", k) // positions k, k+1, ... of a loop that starts at constant k > 0
 		}
 		var parts []string
-		for _, e := range x.Edges {
-			if e == v {
+		dead := deadPhiEdges(x)
+		for i, e := range x.Edges {
+			if e == v || dead[i] {
 				continue
 			}
 			pv := R.V(e)
@@ -441,6 +442,9 @@ func (R *Renderer) render(v ssa.Value) string {
 		}
 		sort.Strings(parts)
 		parts = dedup(parts)
+		if len(dead) > 0 && len(parts) == 1 {
+			return parts[0]
+		}
 		return "phi{" + strings.Join(parts, " | ") + "}"
 	case *ssa.Next:
 		return "next"
@@ -1697,4 +1701,122 @@ func errorsAsTarget(al *ssa.Alloc) ssa.Value {
 		return nil
 	}
 	return e
+}
+
+var deadPhiMemo = map[*ssa.Phi]map[int]bool{}
+
+// deadPhiEdges: `v, err := f()` written out (an expanded helper, a switch that assigns both): the
+// value merge x stands beside an error merge; when every use of x lies behind the test that the
+// error is nil, the arms on which the error is known to be non-nil never reach a use, and x is
+// the merge of the others.
+func deadPhiEdges(x *ssa.Phi) map[int]bool {
+	if d, ok := deadPhiMemo[x]; ok {
+		return d
+	}
+	deadPhiMemo[x] = nil
+	if x.Type().String() == "error" || x.Referrers() == nil {
+		return nil
+	}
+	var perr *ssa.Phi
+	for _, in := range x.Block().Instrs {
+		q, ok := in.(*ssa.Phi)
+		if !ok {
+			break
+		}
+		if q != x && q.Type().String() == "error" {
+			if perr != nil {
+				return nil
+			}
+			perr = q
+		}
+	}
+	if perr == nil || perr.Referrers() == nil {
+		return nil
+	}
+	// the block entered when perr is nil
+	var nilSucc *ssa.BasicBlock
+	for _, ref := range *perr.Referrers() {
+		bo, ok := ref.(*ssa.BinOp)
+		if !ok || (bo.Op != token.NEQ && bo.Op != token.EQL) || bo.Referrers() == nil {
+			continue
+		}
+		if !(isNilConst(bo.X) || isNilConst(bo.Y)) {
+			continue
+		}
+		for _, r2 := range *bo.Referrers() {
+			if ifi, ok := r2.(*ssa.If); ok {
+				k := 1 // NEQ: false successor
+				if bo.Op == token.EQL {
+					k = 0
+				}
+				sb := ifi.Block().Succs[k]
+				if len(sb.Preds) == 1 {
+					nilSucc = sb
+				}
+			}
+		}
+	}
+	if nilSucc == nil {
+		return nil
+	}
+	for _, ref := range *x.Referrers() {
+		if _, isDbg := ref.(*ssa.DebugRef); isDbg {
+			continue
+		}
+		if ref.Block() == nil || !nilSucc.Dominates(ref.Block()) {
+			return nil
+		}
+	}
+	dead := map[int]bool{}
+	for i, e := range perr.Edges {
+		if i < len(x.Block().Preds) && nonNilAt(e, x.Block().Preds[i]) {
+			dead[i] = true
+		}
+	}
+	if len(dead) == 0 || len(dead) == len(x.Edges) {
+		return nil
+	}
+	deadPhiMemo[x] = dead
+	return dead
+}
+
+// nonNilAt: the error value is non-nil whenever control is in block b: by construction, or
+// because b lies behind the non-nil arm of a test of that very value.
+func nonNilAt(v ssa.Value, b *ssa.BasicBlock) bool {
+	if provablyNonNilError(v) {
+		return true
+	}
+	for cur := b; cur != nil; cur = cur.Idom() {
+		d := cur.Idom()
+		if d == nil || len(cur.Preds) != 1 || cur.Preds[0] != d || len(d.Instrs) == 0 {
+			continue
+		}
+		ifi, ok := d.Instrs[len(d.Instrs)-1].(*ssa.If)
+		if !ok {
+			continue
+		}
+		bo, ok := ifi.Cond.(*ssa.BinOp)
+		if !ok || (bo.Op != token.NEQ && bo.Op != token.EQL) {
+			continue
+		}
+		var t ssa.Value
+		if isNilConst(bo.Y) {
+			t = bo.X
+		} else if isNilConst(bo.X) {
+			t = bo.Y
+		} else {
+			continue
+		}
+		if t != v {
+			continue
+		}
+		k := 0 // NEQ: true successor is the non-nil arm
+		if bo.Op == token.EQL {
+			k = 1
+		}
+		if d.Succs[k] == cur && d.Succs[1-k] != cur {
+			return true
+		}
+	}
+	return false
 }
